@@ -512,17 +512,18 @@ package gorm
 //@   ensures keeps-connpool: result.Statement.ConnPool == old(db.Statement.ConnPool) [C05]
 
 //@ # ---------- C16: FirstOrInit never writes, FirstOrCreate writes at most once, both look up the first match by primary key ----------
-//@ ghost creates updatesCalls limitedTo1 orderedByPK viaOnConflict
+//@ ghost creates updatesCalls limitedTo1 orderedByPK orderedByPKDesc viaOnConflict
 //@ event call (*DB).Create
 //@   do creates = creates + 1
 //@ event call (*DB).Updates
 //@   do updatesCalls = updatesCalls + 1
 //@ event call (*DB).Limit
-//@   in gorm.(*DB).FirstOrCreate gorm.(*DB).FirstOrInit
+//@   in gorm.(*DB).FirstOrCreate gorm.(*DB).FirstOrInit gorm.(*DB).First gorm.(*DB).Last gorm.(*DB).Take
 //@   do limitedTo1 = ite(arg1 == 1, ref(result), 0)
 //@ event call (*DB).Order
-//@   in gorm.(*DB).FirstOrCreate gorm.(*DB).FirstOrInit
+//@   in gorm.(*DB).FirstOrCreate gorm.(*DB).FirstOrInit gorm.(*DB).First gorm.(*DB).Last gorm.(*DB).Take
 //@   do orderedByPK = ite(ref(arg0) == limitedTo1 && is(arg1, clause.OrderByColumn) && arg1.(clause.OrderByColumn).Column == clause.Column{Table: clause.CurrentTable, Name: clause.PrimaryKey} && !arg1.(clause.OrderByColumn).Desc, ref(result), 0)
+//@   do orderedByPKDesc = ite(ref(arg0) == limitedTo1 && is(arg1, clause.OrderByColumn) && arg1.(clause.OrderByColumn).Column == clause.Column{Table: clause.CurrentTable, Name: clause.PrimaryKey} && arg1.(clause.OrderByColumn).Desc, ref(result), 0)
 //@ site first-match-lookup
 //@   match call gorm.(*DB).Find
 //@   in gorm.(*DB).FirstOrCreate gorm.(*DB).FirstOrInit
@@ -613,3 +614,28 @@ package gorm
 //@   in gorm.(*Statement).BuildCondition
 //@   min-sites 0
 //@   assert array-allocated-by-this-call: fresh(recv) [C06]
+
+//@ # ---------- C15: the single-record finders ----------
+//@ # First / Last: one row, lowest / highest primary key first; Take: one row; all three raise ErrRecordNotFound
+//@ # (RaiseErrorOnNotFound) when nothing matches. The query that runs is the handle that was limited and ordered.
+//@ site first-asks-for-the-lowest-key
+//@   match call gorm.(*processor).Execute
+//@   in gorm.(*DB).First
+//@   min-sites 1
+//@   entry limitedTo1 == 0 && orderedByPK == 0 && orderedByPKDesc == 0
+//@   assert one-row-ascending-by-primary-key: orderedByPK != 0 && ref(arg1) == orderedByPK [C15]
+//@   assert not-found-is-an-error: arg1.Statement.RaiseErrorOnNotFound [C15]
+//@ site last-asks-for-the-highest-key
+//@   match call gorm.(*processor).Execute
+//@   in gorm.(*DB).Last
+//@   min-sites 1
+//@   entry limitedTo1 == 0 && orderedByPK == 0 && orderedByPKDesc == 0
+//@   assert one-row-descending-by-primary-key: orderedByPKDesc != 0 && ref(arg1) == orderedByPKDesc [C15]
+//@   assert not-found-is-an-error: arg1.Statement.RaiseErrorOnNotFound [C15]
+//@ site take-asks-for-one-row
+//@   match call gorm.(*processor).Execute
+//@   in gorm.(*DB).Take
+//@   min-sites 1
+//@   entry limitedTo1 == 0 && orderedByPK == 0 && orderedByPKDesc == 0
+//@   assert one-row: limitedTo1 != 0 && ref(arg1) == limitedTo1 [C15]
+//@   assert not-found-is-an-error: arg1.Statement.RaiseErrorOnNotFound [C15]
